@@ -246,11 +246,23 @@ def shape_rubyparts(v):
   rt2 = m.Rt(d); rt2.set_id(nid()); rt2.set_begin(v("rt2b")); rt2.set_end(v("rt2e"))
   st2 = m.Span(d); st2.set_id(nid()); st2.push_child(m.Text(d, "T")); rt2.push_child(st2)
   rp2 = m.Rp(d); rp2.set_id(nid()); sp2 = m.Span(d); sp2.set_id(nid()); sp2.push_child(m.Text(d, ")")); rp2.push_child(sp2)
-  rtc.push_children([rp1, rt2, rp2])
+  rt2x = m.Rt(d); rt2x.set_id(nid()); rt2x.set_region(r2)      # an annotation inside delimiters that is flowed into another region
+  st2x = m.Span(d); st2x.set_id(nid()); st2x.push_child(m.Text(d, "X")); rt2x.push_child(st2x)
+  rtc.push_children([rp1, rt2, rt2x, rp2])
   rtc2 = m.Rtc(d); rtc2.set_id(nid()); rtc2.set_region(r2)
   rt3 = m.Rt(d); rt3.set_id(nid()); st3 = m.Span(d); st3.set_id(nid()); st3.push_child(m.Text(d, "U")); rt3.push_child(st3)
   rtc2.push_children([rt3])
   ruby2.push_children([rbc, rtc, rtc2])
+  # a text container whose only annotation, between delimiters, is flowed into another region
+  ruby3 = m.Ruby(d); ruby3.set_id(nid()); p2.push_child(ruby3)
+  rbc3 = m.Rbc(d); rbc3.set_id(nid()); rb3 = m.Rb(d); rb3.set_id(nid()); sb3 = m.Span(d); sb3.set_id(nid()); sb3.push_child(m.Text(d, "C")); rb3.push_child(sb3)
+  rbc3.push_child(rb3)
+  rtc3 = m.Rtc(d); rtc3.set_id(nid())
+  rpa = m.Rp(d); rpa.set_id(nid()); spa = m.Span(d); spa.set_id(nid()); spa.push_child(m.Text(d, "[")); rpa.push_child(spa)
+  rt4 = m.Rt(d); rt4.set_id(nid()); rt4.set_region(r2); st4 = m.Span(d); st4.set_id(nid()); st4.push_child(m.Text(d, "V")); rt4.push_child(st4)
+  rpb = m.Rp(d); rpb.set_id(nid()); spb = m.Span(d); spb.set_id(nid()); spb.push_child(m.Text(d, "]")); rpb.push_child(spb)
+  rtc3.push_children([rpa, rt4, rpb])
+  ruby3.push_children([rbc3, rtc3])
   return d
 
 
